@@ -4,7 +4,7 @@
 //!
 //! With `--pairs <file>` (lines "cmp <a> <b>" / "add <a> <n>" / "bump <a> 0" /
 //! "place <ts> <r> <era>" / "text <era> <v>" / "instant <era+4> <v>" /
-//! "window <x> <lo> <hi>", decimal u32)
+//! "window <x> <lo> <hi>" / "fresh <ts> <now>", decimal u32)
 //! the given calls are performed and recorded instead of generated ones: used
 //! to put sweep disagreements before TLC and to re-confirm a rejected event
 //! in isolation.
@@ -44,6 +44,7 @@ fn cmp_ev(w: &mut TraceWriter, rt: &tokio::runtime::Runtime, cur: u32, b: u32) {
     w.event(json!({"ev": "cmp", "b": limbs(b), "ixfr": ixfr,
         "serial": lib_cmp(cur, b), "rev": lib_cmp(b, cur),
         "timestamp": lib_ts_cmp(cur, b), "newserial": lib_new_cmp(cur, b),
+        "newts": lib_newts_cmp(cur, b), "newtsrev": lib_newts_cmp(b, cur),
         "ref": ref_cmp(32, cur as u64, b as u64)}));
 }
 
@@ -74,7 +75,11 @@ fn place_ev(w: &mut TraceWriter, cur: u32, era: u32, r: u32) {
         Some(t) => json!({"era": t >> 32, "v": limbs(t as u32)}),
         None => json!({"era": -1, "v": [0, 0]}),
     };
-    w.event(json!({"ev": "place", "era": era, "r": limbs(r), "t": t}));
+    let nt = match lib_newts_place(cur, ((era as u64) << 32) + r as u64) {
+        Some(t) => json!({"era": t >> 32, "v": limbs(t as u32)}),
+        None => json!({"era": -1, "v": [0, 0]}),
+    };
+    w.event(json!({"ev": "place", "era": era, "r": limbs(r), "t": t, "nt": nt}));
 }
 
 /// A signature time era * 2^32 + v is written as a real date and as an
@@ -116,6 +121,16 @@ fn window_ev(w: &mut TraceWriter, cur: u32, lo: u32, hi: u32) {
     w.event(ev);
 }
 
+/// The server cookies middleware (clock set to `now`) is shown a correctly
+/// hashed server cookie whose timestamp is cur.
+fn fresh_ev(w: &mut TraceWriter, rig: &mut FreshRig, cur: u32, now: u32) {
+    let mut ev = std::panic::catch_unwind(std::panic::AssertUnwindSafe(|| rig.sites(now, cur)))
+        .unwrap_or_else(|_| json!({"mwprefetch": "panic", "mwdenied": "panic", "optcookie": "panic"}));
+    ev["ev"] = json!("fresh");
+    ev["now"] = json!(limbs(now));
+    w.event(ev);
+}
+
 fn add_ev(w: &mut TraceWriter, cur: u32, n: u32) -> Option<u32> {
     let lib = lib_add(cur, n);
     let res = |r: Option<u32>| match r {
@@ -141,6 +156,11 @@ fn main() {
     let mut rng = Rng::new(args[2].parse().unwrap_or(1));
     let max: u64 = args[3].parse().unwrap_or(20000);
     let rt = tokio::runtime::Builder::new_current_thread().enable_all().build().expect("runtime");
+    let mut rig = FreshRig::new();
+    if !rig.selftest() {
+        eprintln!("clock interposition or hash self-test failed");
+        std::process::exit(2);
+    }
     if let Some(p) = arg_value("--pairs") {
         let text = std::fs::read_to_string(p).expect("pairs file");
         for line in text.lines() {
@@ -167,6 +187,8 @@ fn main() {
                     }
                     // "window <x> <lo> <hi>"
                     "window" => window_ev(&mut w, a, b, nums.next().unwrap_or(0)),
+                    // "fresh <ts> <now>"
+                    "fresh" => fresh_ev(&mut w, &mut rig, a, b),
                     // "place <ts> <r> <era>"
                     "place" => place_ev(&mut w, a, nums.next().unwrap_or(0), b),
                     _ => {}
@@ -235,6 +257,31 @@ fn main() {
             if let Some(x) = instant_ev(&mut w, era, v) {
                 cur = x;
             }
+            continue;
+        }
+        // the serial as a cookie timestamp shown to the server cookies
+        // middleware whose clock is near it (inside, at and just beyond either
+        // end of the one hour / five minutes window), half a cycle away, or
+        // anywhere -- wherever cur lies, also with clock and timestamp on
+        // different sides of the wrap-around
+        if rng.chance(1, 10) {
+            if rng.chance(1, 5) {
+                cur = 0u32.wrapping_add(rng.below(8000) as u32).wrapping_sub(4000);
+                set_ev(&mut w, cur);
+            }
+            let small = rng.below(5) as u32;
+            let age: u32 = match rng.below(9) {
+                0 => small.wrapping_sub(2),
+                1 => PAST.wrapping_add(small).wrapping_sub(2),
+                2 => 0u32.wrapping_sub(FUTURE).wrapping_add(small).wrapping_sub(2),
+                3 => rng.below(PAST as u64 + 1) as u32,
+                4 => 0u32.wrapping_sub(rng.below(FUTURE as u64 + 1) as u32),
+                5 => H.wrapping_add(small).wrapping_sub(2),
+                6 => H.wrapping_add(rng.below(1 << 14) as u32).wrapping_sub(1 << 13),
+                7 => H.wrapping_add(rng.below(H as u64) as u32), // cur is numerically above now or wraps
+                _ => any(&mut rng),
+            };
+            fresh_ev(&mut w, &mut rig, cur, cur.wrapping_add(age));
             continue;
         }
         // the serial as a timestamp shown to a verifier: a window of "back"
